@@ -78,7 +78,7 @@ CLAIMS["C09"] = dict(
     text="Kernel clauses of C09 under contract: moveCentreX/Y, moveMinX/Y keep width/height and the other axis; overlapX/Y > 0 iff open extents intersect; every generated "
          "separation (the six sep expressions of generateX/YConstraints) separates its pair under any placement satisfying it; removeoverlaps restores the x/y border statics "
          "(projection fragment, two calls under different borders); generateX/YConstraints set every variable's desired position to its rectangle's current centre (loop shells "
-         "for any number of rectangles + projected bodies); Solver::solve returns the state after refinement (C01's driver job, run here too). 'No two rectangles overlap', acyclicity and the size of a fixed rectangle's movement are undecided residue.",
+         "for any number of rectangles + projected bodies); Solver::solve returns the state after refinement (C01's driver job, run here too); bounded: a pass of Solver::refine ends solved only after examining every block. 'No two rectangles overlap', acyclicity and the size of a fixed rectangle's movement are undecided residue.",
     note=BASE_TB + "Scaled-integer mode (machine arithmetic treated as mathematical) for the size/separation jobs; projection fragment with a syntactic premise checked every run; "
          "exception path of removeoverlaps not covered.",
     tech="CBMC harness proofs on verbatim slices of inline members and expression/projection fragments; scaled-integer arithmetic mode; native multi-call replay",
